@@ -59,3 +59,6 @@ add("C03", "fault_enumeration", "crash-point enumeration plus power-loss pattern
     "the C01 crash points plus, for every prefix, every loss/tear pattern of the un-synced data writes (all subsets when <=6 are volatile; otherwise none/all/singletons/complements/per-file; tears at 512-byte boundaries and midpoints); startup must not panic/exit/fail and every bucket whose creating call had returned must answer an all-time query", CR + "; power-loss model: data volatile until fsync(file)/sync(), metadata journalled", "crashmc")
 add("C04", "fault_enumeration", "power-loss pattern enumeration over every crash prefix, oracle = acknowledged writes recovered",
     "for every prefix of the device log of every history, every loss/tear pattern of the data writes not yet covered by fsync/sync (bounded as stated in the evidence) is applied, the server restarted and every acknowledged write must be returned", CR + "; power-loss model: data volatile until fsync(file)/sync(), metadata journalled, lost extension reads as zeros", "crashmc")
+add("C06", "exploration", "exhaustive byte-level mutation enumeration of real WAL files, each mutant restarted through the real startup path",
+    "4 WAL files written by the real write path; truncation at every offset, substitution of every byte by 8 (thorough 256) values, 1/2/8-byte insertions at every offset, every length/id field set to 10 extreme values, duplication/swap of every message, every header status pair; oracle: no panic, no hang, applied set between must and may, checkpointed data intact, nothing outside the root",
+    TB + "; independent WAL decoder (mc/walfmt.go) to locate records", "seqmc")
